@@ -398,7 +398,7 @@ func (rt vTargetRT) failed(rid string, err error) error {
 
 // The behaviour of the target for one request is chosen by the request itself
 // (header X-Verif-Behaviour): "" or "reply" = immediate 200, "delay:<ns>",
-// "hang" (until the request context ends), "fault:<text>" (transport error), "upgrade" / "upgrade:<ns>" (101, at once / late),
+// "hang" (until the request context ends), "fault:<text>" (transport error), "dialfail:<target>" (connection refused by that target), "upgrade" / "upgrade:<ns>" (101, at once / late),
 // "status:<n>".
 func (rt vTargetRT) RoundTrip(req *http.Request) (*http.Response, error) {
 	s := rt.s
@@ -433,6 +433,11 @@ func (rt vTargetRT) RoundTrip(req *http.Request) (*http.Response, error) {
 		return nil, rt.failed(rid, context.Cause(req.Context()))
 	case strings.HasPrefix(beh, "fault:"):
 		return nil, rt.failed(rid, errors.New(beh[len("fault:"):]))
+	case strings.HasPrefix(beh, "dialfail:"):
+		// nothing listens at the named target: the connection is refused; any other target replies
+		if beh[len("dialfail:"):] == name {
+			return nil, rt.failed(rid, &net.OpError{Op: "dial", Net: "tcp", Err: errors.New("connect: connection refused")})
+		}
 	case strings.HasPrefix(beh, "status:"):
 		status, _ = strconv.Atoi(beh[len("status:"):])
 	case beh == "upgrade" || strings.HasPrefix(beh, "upgrade:"):
